@@ -119,7 +119,7 @@ func driveResource(t tuple, a api, variant int, decoy string) (o outcome, resW, 
 	var wopts []resource.WriteOption
 	switch {
 	case t.M.isNil:
-	case len(t.M.paths) >= 2 && variant%5 == 3:
+	case len(t.M.paths) >= 2 && variant%5 == 3 && splittable(t):
 		// the same set of paths given in two options (WithMoreUpdateMask unions and normalises them)
 		k := len(t.M.paths) / 2
 		wopts = append(wopts, resource.WithUpdatePaths(t.M.paths[:k]...), resource.WithMoreUpdatePaths(t.M.paths[k:]...))
@@ -212,4 +212,16 @@ func (t tuple) replay(extra map[string]any) map[string]any {
 		m[k] = v
 	}
 	return m
+}
+
+// splittable: the update mask may be handed over in two options (WithUpdatePaths + WithMoreUpdatePaths, which unions
+// and normalises) only when normalisation cannot change what it means: all paths valid, no duplicates, no overlaps.
+func splittable(t tuple) bool {
+	md := t.src.ProtoReflect().Descriptor()
+	for _, p := range t.M.paths {
+		if vk.ClassifyPath(md, p) != vk.PathValid {
+			return false
+		}
+	}
+	return normalised(t.M.paths)
 }
